@@ -1,7 +1,7 @@
 /-
 Shape tie (Request): the state the model carries is exactly the state the Rust structs carry.
-`Generated/Shapes.lean` is re-read from /repo/src on every run (field names, declaration order, types
-as written). The model was written against the field lists below – `Model/Request.lean` `Request` = (message, response, source).
+`Generated/Shapes.lean` is re-read from /repo/src on every run (field names, types as written up to
+module paths and lifetimes; order is irrelevant). The model was written against the field lists below – `Model/Request.lean` `Request` = (message, response, source).
 A field added to, removed from or retyped in one of these structs (a memo, a marker, a digest instead
 of the data, a narrower counter) makes the corresponding `rfl` fail: the hand-written model then no
 longer accounts for all the state of the code, whatever the correspondence runs happen to explore.
